@@ -25,6 +25,10 @@ def elbow(rng, amax):
         x.append(x[-1] + g)
     j1 = rng.randrange(-64, 65)
     j2 = rng.choice([j for j in range(-64, 65) if j != j1])
+    if rng.random() < 0.3:
+        # integer slopes: the whole elbow is integral and is then also delivered as an int64 array (see `one`)
+        j1 = 8 * rng.randrange(-8, 9)
+        j2 = 8 * rng.choice([j for j in range(-8, 9) if 8 * j != j1])
     s1, s2 = j1 / 8.0, j2 / 8.0
     y0 = rng.choice([0.0, 1.0, 0.5, 37.25, 4096.0, 100.0, 0.0, 1.0, 0.5, 37.25, 4096.0, 100.0, 2.0 ** 22, -2.0 ** 22, 2.0 ** 30])
     c = a
@@ -39,8 +43,17 @@ def one(ctx, pts, c, slopes, kind, opts, family):
     case = dict(points=pts.tolist() if n <= 60 else dict(n=n, head=pts[:4].tolist(), corner=pts[c].tolist(), tail=pts[-3:].tolist()),
                 corner=c, slopes_eighths=list(slopes), detector=kind, options=opts)
     site = f'{kind}.knee' + (f"[{opts.get('fit')},{opts.get('mode')},limit={opts.get('limit')}]" if kind == 'lmethod' else '')
+    if 'int_dtype' not in opts:
+        # an integral elbow is the same elbow as an int64 array (raw counts): delivered so in about a third of the integral cases
+        a_ = np.asarray(pts, float)
+        opts = dict(opts, int_dtype=bool(np.all(a_ == np.floor(a_)) and np.max(np.abs(a_)) < 2 ** 40 and ctx.rng.random() < 0.35))
+    if opts['int_dtype']:
+        ctx.tag('input:int64-dtype')
+        case['options'] = opts
     try:
         if kind == 'lmethod_get_knee':
+            if opts['int_dtype']:
+                pts = pts.astype(np.int64)
             import kneeliverse.lmethod as lm
             fit = {'pointfit': lm.Fit.point_fit, 'bestfit': lm.Fit.best_fit}[opts['fit']]
             cost = {'rmse': lm.Cost.rmse, 'rss': lm.Cost.rss}[opts['cost']]
